@@ -157,7 +157,9 @@ fn alphabet(n: usize, tier: Tier) -> Vec<Dev> {
     // the MAIN enum derives std's Default with `#[default]` on its first variant: a helper attribute of another derive, which
     // must not reach the generated enum (alone, and next to a requested Default for the discriminants with its own default)
     d.push(dev("main enum: derive(::core::default::Default) + #[default] on v0", &["mdef", "kind0"], |s| {
-        if !s.variants[0].kind.is_unit() || !s.generics.is_empty() {
+        // (with a single variant the foreign-attribute deviation would put #[non_exhaustive] on the #[default] variant, which
+        // rustc itself rejects)
+        if !s.variants[0].kind.is_unit() || !s.generics.is_empty() || s.variants.len() < 2 {
             return false;
         }
         s.extra_attrs.push("#[derive(::core::default::Default)]".into());
